@@ -569,20 +569,21 @@ theorem voted_history_is_a_history (b : State) (powers : List Nat) (total : Nat)
 number of oracles, any powers, any recorded total, any order, oracles reporting whatever heights and events they like),
 every observation that has taken effect — the height `e.height` was stored as the observed external height and ran the
 event handler and both timeout clean-ups — is backed by its voters: each of them submitted a claim for that event nonce with
-exactly that height and exactly that event, and their combined power is at least the required power
-(`threshold · total / 100`, regenerated).  Depends on the claim hash covering the height: with a hash that drops it the
+exactly that height and exactly that event, they are pairwise DISTINCT oracles (an oracle votes once per event nonce:
+the contiguity check), and their combined power is at least the required power (`threshold · total / 100`, regenerated).  Depends on the claim hash covering the height: with a hash that drops it the
 statement is false (see the `example` below). -/
 theorem observed_height_has_quorum (b : State) (powers : List Nat) (total : Nat) (ops : List VOp) :
     let s := vrun (vinit b powers total) ops
     ∀ e ∈ s.obsLog,
       (∀ o ∈ e.voters, (⟨o, e.nonce, e.height, e.ev⟩ : Vote) ∈ s.voteLog) ∧
-      required total ≤ sumPower (fun o => powers.getD o 0) e.voters := by
+      required total ≤ sumPower (fun o => powers.getD o 0) e.voters ∧ e.voters.Nodup := by
   intro s e he
+  have hD := (vdist_run FxVerif.Gen.C06.claimHashFields ops _ (vdist_init b powers total)).obs e he
   have hv : FxVerif.Gen.C06.observedHeightFromVoter = true := by decide
   have I := vinv_run FxVerif.Gen.C06.claimHashFields hv ops _ (vinv_init _ b powers total)
   have hp := vrun_powers FxVerif.Gen.C06.claimHashFields ops (vinit b powers total)
   obtain ⟨hb, hr⟩ := I.obs e he
-  refine ⟨?_, ?_⟩
+  refine ⟨?_, ?_, hD⟩
   · intro o ho
     obtain ⟨v, hvm, h1, h2, h3⟩ := hb o ho
     obtain ⟨h4, h5⟩ := claimKey_injective _ _ _ _ h3
@@ -661,7 +662,7 @@ theorem vote_releases_only_with_quorum (s : VState) (o n h : Nat) (ev : Ev) :
 /-- **release only after the timeout height was observed by a quorum** — over whole voted histories: from any base state,
 for any oracle set, powers and recorded total, after any list of user operations and votes, if the next vote makes a batch
 (an outgoing bridge call) leave fxcore's store, then oracles holding at least the required power have EACH submitted a
-claim for this event nonce reporting exactly the height `h` that the release rule was evaluated with (`timeout < h`, resp.
+claim for this event nonce (pairwise distinct oracles) reporting exactly the height `h` that the release rule was evaluated with (`timeout < h`, resp.
 `timeout ≤ h`; or the event executes / supersedes the batch).  One oracle (or any set below the quorum) reporting a
 height beyond a timeout releases nothing. -/
 theorem release_only_after_quorum_observed_height (b0 : State) (powers : List Nat) (total : Nat) (ops : List VOp)
@@ -671,11 +672,11 @@ theorem release_only_after_quorum_observed_height (b0 : State) (powers : List Na
     (∀ b ∈ s.base.batches, b ∉ s'.base.batches →
       (b.timeout < h ∨ ∃ t k, ev = .batch t k ∧ b.token = t ∧ b.nonce ≤ k) ∧
       ∃ voters, (∀ o' ∈ voters, (⟨o', n, h, ev⟩ : Vote) ∈ s'.voteLog) ∧
-        required total ≤ sumPower (fun o => powers.getD o 0) voters) ∧
+        required total ≤ sumPower (fun o => powers.getD o 0) voters ∧ voters.Nodup) ∧
     (∀ c ∈ s.base.calls, c ∉ s'.base.calls →
       c.timeout ≤ h ∧
       ∃ voters, (∀ o' ∈ voters, (⟨o', n, h, ev⟩ : Vote) ∈ s'.voteLog) ∧
-        required total ≤ sumPower (fun o => powers.getD o 0) voters) := by
+        required total ≤ sumPower (fun o => powers.getD o 0) voters ∧ voters.Nodup) := by
   intro s s'
   have hs' : s' = vrun (vinit b0 powers total) (ops ++ [.vote o n h ev]) := by
     show _ = vrunWith _ _ _
@@ -688,7 +689,7 @@ theorem release_only_after_quorum_observed_height (b0 : State) (powers : List Na
   have step := vote_releases_only_with_quorum s o n h ev
   have back : (∃ voters, s'.obsLog = s.obsLog ++ [⟨n, h, ev, voters⟩]) →
       ∃ voters, (∀ o' ∈ voters, (⟨o', n, h, ev⟩ : Vote) ∈ s'.voteLog) ∧
-        required total ≤ sumPower (fun o => powers.getD o 0) voters := by
+        required total ≤ sumPower (fun o => powers.getD o 0) voters ∧ voters.Nodup := by
     rintro ⟨voters, hl⟩
     have hm : (⟨n, h, ev, voters⟩ : Obs) ∈ s'.obsLog := by rw [hl]; simp
     exact ⟨voters, hq _ hm⟩
